@@ -45,6 +45,9 @@ def h_fidelity(x, bk, mode):
         if mode == "single":
             ret = b.insert(ev)
             rid = ret.id if ret is not None else None
+        elif mode == "bulk1":
+            b.insert([ev])  # a bulk insert of a single event
+            rid = None
         else:
             second = C.mk_event(x, u, d, {"other": 1}, aligned=False, off=off)
             b.insert([ev, second])
@@ -52,7 +55,7 @@ def h_fidelity(x, bk, mode):
         floor = u - u % 1000
         allrows = b.get(-1)
         mine = [e for e in allrows if e.data == keep]
-        obl = [("inserted-event-listed-once", len(mine) == 1), ("count", len(allrows) == (2 if mode == "single" else 3))]
+        obl = [("inserted-event-listed-once", len(mine) == 1), ("count", len(allrows) == (3 if mode == "bulk" else 2))]
         obs = [len(allrows)]
         if len(mine) == 1:
             g = mine[0]
@@ -244,7 +247,7 @@ def harnesses(tier):
     ST.install_peewee()
     hs = []
     for bk in ["memory", "sqlite", "peewee"]:
-        for mode in ("single", "bulk"):
+        for mode in ("single", "bulk1", "bulk"):
             hs.append((Harness(PROP, "%s-fidelity-%s" % (bk, mode), h_fidelity, dict(bk=bk, mode=mode), "%s: %s insertion of an event with arbitrary microsecond instant, UTC offset, duration and pooled JSON data; get / get_by_id return it" % (bk, mode)), 900))
         for mode in ("insert", "bulk", "replace", "replace_last"):
             hs.append((Harness(PROP, "%s-ownership-%s" % (bk, mode), h_ownership, dict(bk=bk, mode=mode), "%s: mutation of the caller's event after %s, of events handed out and of metadata dicts" % (bk, mode)), 900))
